@@ -38,7 +38,7 @@ ASSUMPTIONS = ["thread interleavings are sampled, not enumerated; the write tap 
                "dependence on every execution", "custom gamma callbacks used here are pure functions"]
 REACH = ["rate", "_compute", "predict_win", "predict_draw", "predict_rank"]
 SHARDS = {"quick": 14, "thorough": 16}
-TECHNIQUE = "runtime monitoring: attribute-write tap + history-free shadow execution (in-process and across processes) + thread schedule monitor (random yield injection and systematic single-preemption sweep)"
+TECHNIQUE = "runtime monitoring: attribute-write tap + history-free shadow execution (in-process and across processes) + thread schedule monitor (random yield injection, systematic single-preemption sweep from warm and from cold start) + failing calls inside histories + re-entrant use from a gamma callback"
 
 
 def floors(tier):
